@@ -76,7 +76,11 @@ Definition range_index (start step : Z) (n : nat) (x : label) : option Z :=
 
 (* `np.asarray(span, dtype=object) == target`, target = the period wrapped in a 0-d object array (since fix 35fe7e2): element-wise
    comparison with the period as ONE object — a tuple label is no longer broadcast against the span *)
-Definition arr_eq (ls : list label) (x : label) : list bool := map (fun y => label_eqb y x) ls.
+(* ... but the comparison runs on `np.asarray(span, dtype=object)`: the object cast turns the elements of a datetime64[ns] array into
+   Python ints (nanoseconds), which never equal a Timestamp / datetime64 target — in an SArr the labels LTs ns stand for the elements
+   of such an array.  (Kept finding: no period of a datetime64[ns] array span can be addressed by its own label.) *)
+Definition obj_cast (y : label) : label := match y with LTs ns => LInt ns | _ => y end.
+Definition arr_eq (ls : list label) (x : label) : list bool := map (fun y => label_eqb (obj_cast y) x) ls.
 Fixpoint true_positions (i : Z) (bs : list bool) : list Z :=
   match bs with
   | [] => []
@@ -129,7 +133,8 @@ Section Locate.
   Definition span_contains (sp : span) (x : label) : outcome bool :=
     match sp with
     | SPandas ls => Ret (pd_contains ls x)
-    | SArr ls => Ret (existsb (fun b => b) (arr_eq ls x))
+    | SArr ls => Ret (existsb (fun y => label_eqb y x) ls)       (* NumPy's own `in` (native comparison); a tuple label: the single-object
+                                                                    comparison of _period_in_span — the same answer in this label model *)
     | _ => Ret (existsb (fun y => label_eqb y x) (span_labels sp))
     end.
 
